@@ -144,12 +144,12 @@ new.append(ob("C17.x.blocks", "pkg/gi", "VerifC17Blocks", cases1(range(6)), case
               "receiver, select over empty channels, range over an open drained channel, a third pop after two producers ended — the engine must end "
               "the path with every task blocked (reach tag deadlock); returning from the operation is the violation. A counterexample is replayed natively with a 1.5 s watchdog (the program must still be blocked then).", ["deadlock"]))
 
-new.append(ob("C17.x.run-error", "pkg/gi", "VerifC17RunError", cases1(range(4)), cases1(range(4)),
+new.append(ob("C17.x.run-error", "pkg/gi", "VerifC17RunError", cases1([0, 1, 3]), cases1([0, 1, 3]),
               "an error inside the form given to gi:run: handled inside the routine (kind 0) the program goes on; not handled (kind 1: (error ..), "
               "kind 2: channel-push on a channel closed meanwhile) the panic leaves the goroutine and the Go runtime ends the process — known finding "
               "C17-run-error-kills-process, carved; natively confirmed by the crash of the replay process. kind 3: the routine signals and handles "
               "a condition in the let scope it shares with its parent; the parent's variable `message` (symbolic value) keeps its value "
-              "(fixed finding C17-condition-slots-written-to-caller-scope, commit 43cb9f3).", ["ran"],
+              "(fixed finding C17-condition-slots-written-to-caller-scope, commit 43cb9f3). Kind 2 (a channel closed while a routine is blocked pushing on it) is no longer a case: the Go race detector, under which every C17 witness is replayed, reports close-versus-send as a race of the program itself, so a passing engine path could not be validated natively; that the routine ends with an error and the process lives on was confirmed natively without the race detector when 6ba5f44 was made.", ["ran"],
               carves=["C17-run-error-kills-process"]))
 
 new.append(ob("C17.x.shared-scope", "pkg/gi", "VerifC17SharedScope", cases1(range(2)), cases1(range(2)),
